@@ -3,7 +3,7 @@ EXTENDS Concat
 AllClasses == {"Signal", "RadioSignal", "IntensitySignal", "BasebandSignal",
                "DualPolarizationSignal", "FullStokesSignal"}
 AllAligns == {"bottom", "center", "top"}
-AllPerturbs == {"shift+1", "shift-1", "swap", "rate2", "ratefine", "cls", "cbw", "labels+1", "labels-1", "t0mismatch"}
+AllPerturbs == {"shift+1", "shift-1", "swap", "rate2", "ratefine", "cls", "cbw", "labels+1", "labels-1", "t0mismatch", "rateunit", "align"}
 Q_RootLens == {0, 1, 3}
 Q_NChans == {1, 2, 3, 4}
 F_RootLens == {0, 1, 2, 4}
